@@ -162,5 +162,43 @@ fn c10_flex_render_one_child() {
     std::mem::forget(store);
 }
 
+//# kind=bounded tier=quick props=C10 bound="flex with one child WITH a fill face, over a dense surface of zero rows and 8 columns (no cell exists, so the fill touches nothing); every direction, every flex rectangle and EVERY child rectangle, including ones whose position + size exceeds usize::MAX (flex_layout produces such rectangles for children that fill an unbounded constraint)" fns=flex_render | computing the strip a child's fill face is applied to never panics (no overflow in start + extent), and the child is still handed the flex's own area and its own layout node
+#[kani::proof]
+#[kani::unwind(4)]
+fn c10_flex_render_fill_strip_arith() {
+    use crate::surface::{Shape, SurfaceMutView};
+    use crate::{Face, FaceAttrs};
+    let ctx = ViewContext::dummy();
+    let shape = Shape { start: 0, end: 0, width: 8, height: 0, row_stride: 8, col_stride: 1 };
+    let root = Layout::new()
+        .with_position(Position { row: kani::any(), col: kani::any() })
+        .with_size(Size { height: kani::any(), width: kani::any() });
+    let cpos = Position { row: kani::any(), col: kani::any() };
+    let csize = Size { height: kani::any(), width: kani::any() };
+    let mut e0: [KCell; 0] = [];
+    let mut e1: [KCell; 0] = [];
+    let expect = root.apply_to(SurfaceMutView::new(shape, &mut e0[..])).shape();
+    let mut store = ViewLayoutStore::new();
+    let mut layout = ViewMutLayout::new(&mut store, root);
+    {
+        let mut child = layout.push_default();
+        *child = Layout::new().with_position(cpos).with_size(csize);
+    }
+    let children: [FlexChild<RecView>; 1] = [FlexChild::new(RecView).face(Face::new(None, None, FaceAttrs::BOLD))];
+    let r = flex_render(any_axis(), children, &ctx, SurfaceMutView::new(shape, &mut e1[..]), layout.view());
+    assert!(r.is_ok());
+    unsafe {
+        if csize.height == 0 || csize.width == 0 { assert!(R_CALLS == 0); } else {
+            assert!(R_CALLS == 1);
+            assert!(R_SHAPE[0] == expect.start && R_SHAPE[1] == expect.end && R_SHAPE[2] == expect.width && R_SHAPE[3] == expect.height);
+            assert!(R_POS.0 == cpos.row && R_POS.1 == cpos.col && R_SIZE.0 == csize.height && R_SIZE.1 == csize.width);
+        }
+        kani::cover!(R_CALLS == 1 && cpos.col > usize::MAX / 2 && csize.width > usize::MAX / 2);
+    }
+    std::mem::forget(r);
+    std::mem::forget(layout);
+    std::mem::forget(store);
+}
+
 // (a fill-face variant over real cells - the face applied to exactly the child's strip - was built and withdrawn: overwriting a
 //  Cell pulls in the drop glue of CellKind::Glyph -> rasterize::Scene, a recursive type CBMC unwinds without end; 300 s timeout)
